@@ -113,10 +113,10 @@ def run_job(job):
     bt = pd.concat(beads) if beads else W.beads_table('none', 'A', rows=('BOK',)).iloc[0:0]
     samples = []
     for s in cfg['samples']:
-        t = W.samples_table([s['row']], inst=s['inst'], variant=s['variant'], fracs=[s['frac']]).rename(index={'S1': s['id']})
+        t = W.samples_table([s['row']], inst=s['inst'], variant=s['variant'], fracs=[s['frac']], style=cfg.get('padded', False)).rename(index={'S1': s['id']})
         t.loc[s['id'], 'Beads ID'] = s['beads']
         samples.append(t)
-    stt = pd.concat(samples) if samples else W.samples_table([], 'A')
+    stt = pd.concat(samples) if samples else W.samples_table([], 'A', style=cfg.get('padded', False))
     inp = os.path.join(d, 'experiment.xlsx')
     with pd.ExcelWriter(inp, engine='openpyxl') as wr:
         W.instruments.loc[inst_rows].reset_index().to_excel(wr, sheet_name='Instruments', index=False)
@@ -228,7 +228,7 @@ def workbook_configs(chk):
             samples.append(dict(id='S%03d' % (k + 1), inst=ins, row=row, variant=i + k, frac=[0.3, 0.85, 0.5][(i + k) % 3],
                                 beads=bid[0] if bid else None))
         cfgs.append(dict(instruments=sorted(set(insts)), beads=beads, samples=samples, plot=(i % 2 == 1), hist=(i % 4 in (1, 2)),
-                         explicit_out=(i % 3 == 0), cli=(i % 4 == 2)))
+                         explicit_out=(i % 3 == 0), cli=(i % 4 == 2), padded=(i % 4 == 1)))     # padded: ' FL1-H  Units ' headers
     return cfgs
 
 
